@@ -144,7 +144,7 @@ func (v *Verifier) rootValue(st *State, l *Loc) *Term {
 		t, ok := st.cells[l.Cell]
 		if !ok {
 			// cell not yet initialised on this path (alloc executed in a block not dominating?)
-			t = v.tm.ZeroOf(v.tm.SortOf(l.Cell.Type().(*types.Pointer).Elem()))
+			t = v.tm.ZeroOf(l.RSort)
 		}
 		return t
 	case l.Ref != nil:
